@@ -100,8 +100,29 @@ def run_property(prop, tier, seed):
                 else:
                     inconclusive.append("%s: counterexample did not reproduce natively (%s): harness or model "
                                         "is out of sync with the source" % (r["harness"], r["outcome"]))
+        # stub-contract validation: where a harness replaces a function of the repository itself by a stub (signature
+        # check, key agreement, AEAD wrappers), the solver's verdict is conditional on the real function meeting the
+        # stub's contract.  That contract is exercised natively on every run; a mismatch voids the verdict and is
+        # reported with the concrete native run as its replay.
+        if getattr(prop, "VALIDATE_STUBS", False) and not cases and not inconclusive:
+            log("validating the contracts of stubbed repository functions natively")
+            fake = [{"harness": "stub_contract_validation", "failed": ["native validation of stubbed repository functions"], "decoded": None}]
+            rep = prop.replay(fake, tier, dst)
+            replay_runs += rep.get("runs", 0)
+            extra_cov["stub_contract_validation"] = [r["outcome"] for r in rep["results"]]
+            for r in rep["results"]:
+                if r["outcome"] == "reproduced":
+                    samples.append({"stub_contract_violated": r["case"], "class": r.get("klass")})
+                    hit = [k for k in known if k.get("key") == r.get("klass")]
+                    path = save_replay(pid, "stub_contract_validation", r["case"])
+                    if hit:
+                        known_hits.append((hit[0], r))
+                    else:
+                        violations.append((path, r))
+                elif r["outcome"] != "not-reproduced":
+                    inconclusive.append("stub contract validation: " + r["outcome"])
         if hasattr(prop, "coverage_extra"):
-            extra_cov = prop.coverage_extra(tier)
+            extra_cov.update(prop.coverage_extra(tier))
     except Inconclusive as e:
         inconclusive.append(str(e))
     except Exception:
@@ -148,7 +169,11 @@ def run_property(prop, tier, seed):
     for k, r in known_hits:
         print("KNOWN-FINDING: property=%s %s (%s)" % (pid, k.get("what", k["key"]), k["key"]))
     if violations:
+        seen_classes = set()
         for path, r in violations:
+            if r.get("klass") in seen_classes:
+                continue
+            seen_classes.add(r.get("klass"))
             print("VIOLATION property=%s replay=%s" % (pid, path))
             log("   class=%s harness=%s detail=%s" % (r.get("klass"), r["harness"], r.get("detail", "")))
         return EXIT_VIOLATION
